@@ -102,6 +102,7 @@ T = [
     ("equ16", "EQU", "$1234", "equ", 0x1234),
     ("equ8", "EQU", "$12", "equ", 0x12),
     ("equ.dec", "EQU", "5", "equ", 5),
+    ("equ.lbl", "EQU", "{L}", "equ", None),
     ("org0", "ORG", "0", "org", 0),
     ("org10", "ORG", "$10", "org", 0x10),
     ("orgFF", "ORG", "$FF", "org", 0xFF),
@@ -118,7 +119,7 @@ T = [
 TAGS = {t[0]: t for t in T}
 CORE = ["inh1", "inh.swi", "imm8", "imm16.p", "dir", "ext", "ext.lbl", "imm.lbl", "idx.off5", "idx.off8n", "idx.off16",
         "idx.off8.r16", "idx.lbl", "ind.lbl", "extind.lbl", "pcr.lbl", "pcr.lbl.ind", "bra", "lbne", "fcb3", "fcc11", "rmb7", "equ8", "equ16",
-        "org10", "org0E00", "org.lbl", "end"]
+        "org10", "org0E00", "org.lbl", "equ.lbl", "end"]
 
 
 def label_options(seq_tags, i):
@@ -279,6 +280,16 @@ def evaluate(case, lines, labels, out):
     defined = [l for l in labels if l]
     dup = len(set(defined)) != len(defined)
     undef = any(b == "UNDEF" for b in bind) or any(b and b not in defined for b in bind)
+
+    def equ_chain(i, seen=()):
+        """statement that finally gives EQU statement i its value; None when the definitions lead back to i"""
+        while tags[i] == "equ.lbl" and bind[i] and bind[i] in labels:
+            if i in seen:
+                return None
+            seen = seen + (i,)
+            i = labels.index(bind[i])
+        return i
+    circular = [i for i in range(n) if tags[i] == "equ.lbl" and not undef and not dup and equ_chain(i) is None]
     if out["kind"] == "DIAG":
         return None, "DIAG"
     if out["kind"] != "OK":
@@ -289,6 +300,8 @@ def evaluate(case, lines, labels, out):
     if undef:
         i = [k for k, b in enumerate(bind) if b and b not in defined][0]
         return V(i, "undefined symbol accepted", "DIAG", common.outcome_brief(out)), "OK"
+    if circular:
+        return V(circular[0], "symbol defined in terms of itself accepted", "DIAG", common.outcome_brief(out)), "OK"
     image, addrs, hexes = out["image"], out["addrs"], out["hex"]
     if len(addrs) != n:
         return V(0, "listing has {} lines for {} statements".format(len(addrs), n), n, len(addrs)), "OK"
@@ -364,7 +377,8 @@ def evaluate(case, lines, labels, out):
             continue
         if lab not in syms:
             return V(i, "label missing from symbol table", lab, sorted(syms)), "OK"
-        want = TAGS[tags[i]][4] if kinds[i] == "equ" else addrs[i]
+        j = equ_chain(i) if tags[i] == "equ.lbl" else i
+        want = TAGS[tags[j]][4] if kinds[j] == "equ" else addrs[j]
         if syms[lab] != want:
             return V(i, "symbol value differs from " + ("EQU constant" if kinds[i] == "equ" else "listing address"),
                      "${:04X}".format(want), "${:04X}".format(syms[lab] if syms[lab] is not None else -1)), "OK"
